@@ -183,12 +183,16 @@ def decode(tab, keys):
 def replay_compare(casefile, logfile, chk, stats):
     """returns the number of divergences between the log and the predictions of the cases"""
     cases = {c["id"]: c for c in vlib.read_ndjson(casefile)}
+    def violation(sig_, desc, obj):
+        # same mismatch classes as Trace_BlsCache: C15 = a clause of the property, C15M = the FIFO model
+        sig_["class"] = "C15M" if sig_["case"] in ("cache_model_divergence", "hang") else "C15"
+        chk.violation(sig_, desc, obj)
     bad = 0
     seen = 0
     for h in histories(logfile):
         e0 = h[0]
         if e0["k"] == "hang":
-            chk.violation({"verifier": "BlsCache", "case": "hang"}, "a scheduled thread neither yielded nor finished: a lock is held across a yield point", e0)
+            violation({"verifier": "BlsCache", "case": "hang"}, "a scheduled thread neither yielded nor finished: a lock is held across a yield point", e0)
             bad += 1
             continue
         if e0["case"] < 0:
@@ -199,11 +203,11 @@ def replay_compare(casefile, logfile, chk, stats):
             for v, x in c["exp"].items():
                 if x != "na" and e0["v"][v] != x:
                     bad += 1
-                    chk.violation(verdict_sig(v, e0["pairs"], e0["sig"], e0["v"][v]),
+                    violation(verdict_sig(v, e0["pairs"], e0["sig"], e0["v"][v]),
                                   "%s returned %s, RefVerdict is %s, for pairs %s signature %s" % (VNAME[v], e0["v"][v], x, e0["pairs"], e0["sig"]), e0)
             if not (0 <= e0["len1"] <= e0["cap"] and 0 <= e0["len2"] <= e0["cap"]):
                 bad += 1
-                chk.violation({"verifier": "BlsCache", "case": "capacity_exceeded"}, "cache holds %d/%d entries, capacity %d" % (e0["len1"], e0["len2"], e0["cap"]), e0)
+                violation({"verifier": "BlsCache", "case": "capacity_exceeded"}, "cache holds %d/%d entries, capacity %d" % (e0["len1"], e0["len2"], e0["cap"]), e0)
             if e0["v"]["blst"] not in ("na", ref(e0["pairs"], e0["sig"])):
                 raise ToolError("raw blst disagrees with RefVerdict (the symbolic model is wrong?): %r" % e0)
             continue
@@ -218,13 +222,13 @@ def replay_compare(casefile, logfile, chk, stats):
             if got != x:
                 bad += 1
                 call = e0["calls"][t]
-                chk.violation(verdict_sig("cache", call["pairs"], call["sig"], got),
+                violation(verdict_sig("cache", call["pairs"], call["sig"], got),
                               "BlsCache::aggregate_verify returned %s, the specification %s (pairs %s, signature %s, capacity %d, prior %s, schedule %s)"
                               % (got, x, call["pairs"], call["sig"], c["cap"], c["prior"], c["sched"]), {"case": dict(c, choice=e0["choice"]), "event": ev})
         model_bad = None
         if e0["len"] > c["cap"]:
             bad += 1
-            chk.violation({"verifier": "BlsCache", "case": "capacity_exceeded"}, "cache holds %d entries, capacity %d" % (e0["len"], c["cap"]), e0)
+            violation({"verifier": "BlsCache", "case": "capacity_exceeded"}, "cache holds %d entries, capacity %d" % (e0["len"], c["cap"]), e0)
         if decode(tab, e0["keys"]) != c["prior"]:
             model_bad = ("prior contents", e0)
         for t, s in enumerate(e0["start"]):
@@ -236,7 +240,7 @@ def replay_compare(casefile, logfile, chk, stats):
             ident = e["t"] if e["k"] == "step" else nt + e["j"]
             if e["len"] > c["cap"] or len(e["keys"]) > c["cap"]:
                 bad += 1
-                chk.violation({"verifier": "BlsCache", "case": "capacity_exceeded"}, "cache holds %d entries, capacity %d (case %d step %d)" % (e["len"], c["cap"], c["id"], i + 1),
+                violation({"verifier": "BlsCache", "case": "capacity_exceeded"}, "cache holds %d entries, capacity %d (case %d step %d)" % (e["len"], c["cap"], c["id"], i + 1),
                               {"case": c, "event": e})
             if model_bad is None and (ident != c["sched"][i] or e["len"] != len(e["keys"]) or decode(tab, e["keys"]) != c["obs"][i]):
                 model_bad = ("cache contents after step %d: %s, specification %s" % (i + 1, decode(tab, e["keys"]), c["obs"][i]), e)
@@ -249,14 +253,14 @@ def replay_compare(casefile, logfile, chk, stats):
             pr = end[0]["probes"]
             if any(p not in ("T", "skip", "unknown") for p in pr):
                 bad += 1
-                chk.violation({"verifier": "BlsCache::aggregate_verify", "case": "cached_value_not_own_pairing"},
+                violation({"verifier": "BlsCache::aggregate_verify", "case": "cached_value_not_own_pairing"},
                               "a cached value does not verify the signature of its own key: probes %s of final keys %s" % (pr, decode(tab, end[0]["keys"])),
                               {"case": c, "event": end[0]})
             if "unknown" in pr:
                 model_bad = model_bad or ("foreign key in the cache", end[0])
         if model_bad:
             bad += 1
-            chk.violation({"verifier": "BlsCache", "case": "cache_model_divergence", "event": model_bad[1].get("k"), "site": model_bad[1].get("site", 0)},
+            violation({"verifier": "BlsCache", "case": "cache_model_divergence", "event": model_bad[1].get("k"), "site": model_bad[1].get("site", 0)},
                           "case %d (capacity %d, prior %s, schedule %s): %s" % (c["id"], c["cap"], c["prior"], c["sched"], model_bad[0]), {"case": c, "event": model_bad[1]})
     if seen != len(cases):
         raise ToolError("replay log %s covers %d of %d cases" % (logfile, seen, len(cases)))
